@@ -518,6 +518,13 @@ fn finish_run_ctx(shard: &mut Shard, replay: &J, what: &str, two_streams_on_mpmc
     }
     let mut vs = payload::take_violations();
     let bad = !vs.is_empty();
+    // one thread, a reference model that always answers: a call that passes its own-step bound or
+    // panics differs from the model, whichever property the monitor was written for
+    for v in vs.iter_mut() {
+        if (v.rule == "step-bound" || v.rule == "panic") && !v.prop.contains("C09") {
+            v.prop = payload::intern(format!("{},C09", v.prop));
+        }
+    }
     if two_streams_on_mpmc {
         for v in vs.iter_mut() {
             v.sig = format!("two-streams-on-mpmc:{}", v.rule);
